@@ -13,8 +13,9 @@ META = {
     "category": "model_checking",
     "text": "Status.tla is the history machine of a status-phase connection; TLC enumerates all client packet "
             "sequences (length <= 4 over request / ping / other) for every supported protocol number plus "
-            "unknown, gap, negative and huge ones, the live rig replays each against the real proxy with 0..2 "
-            "players online, and TLC validates the recorded reactions (response fields, echo bytes, closes) "
+            "unknown, gap, negative and huge ones, the live rig replays each against the real proxy in six registry phases (empty, one joined, "
+            "rejected duplicate logins, second joined, second left, all left; the online count is the harness's own "
+            "ground truth), and TLC validates the recorded reactions (response fields, echo bytes, closes) "
             "line by line. Histories are the quantifier, so exhaustive small histories x protocol classes is "
             "the right level.",
     "design_ref": "DESIGN.md section 4, C43",
@@ -52,7 +53,7 @@ PROPERTY ClosedIsFinal
             % (r.distinct, len(hists), len(clients) + len(gaps), len(gaps)))
     with open(ctx.path("hist.json"), "w") as fh:
         json.dump(hists, fh)
-    ctx.harness("./c43", "TestReplay", env={"VERIF_ONLINE": ctx.pick(1, 2)}, timeout=900)
+    ctx.harness("./c43", "TestReplay", timeout=900)
     st = json.load(open(ctx.path("stats.json")))
     recs = vlib.read_ndjson(ctx.path("trace.ndjson"))
     rejected, matched, tstates = ctx.validate_runs("Status_Trace", recs)
